@@ -493,6 +493,10 @@ def handle (st : St) (line : String) : St × String :=
         | none => "bad-op"
       | _ => "bad-op"
     | _, _ => "bad-op"
+  | ["stripdec", np, m] =>
+    match (np.splitOn ":").mapM parseHex, (if m == "n" then some none else (parseHex m).map some) with
+    | some np, some m => if Req.stripsStat np m then "ok 1" else "ok 0"
+    | _, _ => "bad-op"
   | ["asmcode", main, pk] =>
     match parseHex main, (if pk == "." then some [] else (pk.splitOn ":").mapM parseHex) with
     | some m, some l =>
